@@ -605,6 +605,7 @@ pub fn run_batch(check: &dyn Check, tier: Tier, seed: u64, cases: u64, nshards: 
                     let mut start = shard;
                     let mut respawns = 0;
                     let mut stalls = 0;
+                    let mut hangs = 0;
                     loop {
                         // worker takes `shard` as first index and steps by nshards
                         let mut out = run_worker(&exe, id, tier, seed, start, nshards, cases, hang);
@@ -628,6 +629,14 @@ pub fn run_batch(check: &dyn Check, tier: Tier, seed: u64, cases: u64, nshards: 
                             break;
                         }
                         respawns += 1;
+                        // every genuine hang costs the whole hang limit: after three of them in one shard the rest of
+                        // the shard is given up (the hang is reported; a batch must not take hours)
+                        if outs.last().is_some_and(|o| o.timed_out && !o.stalled) {
+                            hangs += 1;
+                            if hangs >= 3 {
+                                break;
+                            }
+                        }
                         match culprit {
                             Some(c) if respawns < 50 => start = if resume_at_culprit { c } else { c + nshards },
                             _ => break,
